@@ -27,9 +27,9 @@ def md_tokens(md):
         if m.group(1) is not None:
             out.append({'n': int(m.group(1))})
         elif m.group(2) is not None:
-            out.append({'d': m.group(2)[1:].upper()})
+            out.append({'d': m.group(2)[1:]})
         else:
-            out.append({'b': m.group(3).upper()})
+            out.append({'b': m.group(3)})     # as written: MD letters must be the upper-case reference bases
     return out
 
 
@@ -159,27 +159,36 @@ class Env:
         reads = molgen.build_reads(self.hdr, self.ref, mol['chrom'], 'site', mol['frags'][0], tags=read_tags(mol))
         return self.CHICFragment(reads, assignment_radius=100000, umi_hamming_distance=0).get_site_location()[1]
 
-    def api_case(self, mol, max_n, name, out_bam, cap=None):
+    def api_case(self, mol, max_n, name, out_bam, cap=None, hist_k=None):
+        """-> list of (record name, exception name or None, site, associated fragments, fragments added so far).
+        hist_k: history consensus -> add -> consensus on ONE molecule object: the writer is called after the first hist_k
+        fragments and again after the remaining ones were added."""
         frs = self.fragments(mol)
         m = self.CHICMolecule(frs[0], reference=self.fasta, max_associated_fragments=cap)
-        for f in frs[1:]:
+        out = []
+
+        def consensus(label, n_added):
+            # the molecule's site as the molecule object reports it (its correctness is C09's subject; fragments of a CHIC
+            # molecule may start at slightly different places and the molecule then moves its site)
+            site = m.get_cut_site()[1]
+            try:
+                recs = m.deduplicate_majority(out_bam, label, max_N_span=max_n)
+                for r in recs:
+                    out_bam.write(r)
+                out.append((label, None, site, len(m), n_added))
+            except Exception as ex:   # a crash of the code under test is an observation
+                out.append((label, type(ex).__name__, site, len(m), n_added))
+        for j, f in enumerate(frs[1:], start=1):
+            if hist_k is not None and j == hist_k:
+                consensus(name + '_pre', j)
             try:
                 if not m.add_fragment(f):
                     m._add_fragment(f)
             except OverflowError:     # what MoleculeIterator does: the fragment belongs to the molecule but is not taken
                 pass
         assert len(m) + m.overflow_fragments == len(frs) and (cap is not None or len(m) == len(frs))
-        self.assoc = len(m)
-        # the molecule's site as the molecule object reports it (its correctness is C09's subject; fragments of a CHIC
-        # molecule may start at slightly different places and the molecule then moves its site)
-        site = m.get_cut_site()[1]
-        try:
-            recs = m.deduplicate_majority(out_bam, name, max_N_span=max_n)
-            for r in recs:
-                out_bam.write(r)
-            return None, site
-        except Exception as ex:   # a crash of the code under test is an observation
-            return type(ex).__name__, site
+        consensus(name, len(frs))
+        return out
 
     def cleanup(self):
         self.fasta.close()
@@ -188,34 +197,39 @@ class Env:
                 os.remove(p)
 
 
-def run_api(env, emit, mols_maxn, tid0, tag):
-    """mols_maxn: list of (mol, max_N_span). Records are written to one BAM and observed by reading it back."""
+def run_api(env, emit, items, tid0, tag):
+    """items: list of (mol, max_N_span[, cap[, hist_k]]). Records are written to one BAM and observed by reading it back."""
     path = os.path.join(os.getcwd(), 'c15_api_%s_%d.bam' % (tag, os.getpid()))
-    raised, sites = {}, {}
+    results = {}
     with pysam.AlignmentFile(path, 'wb', header=env.hdr) as out:
-        assoc = {}
-        for k, item in enumerate(mols_maxn):
-            mol, max_n = item[0], item[1]
+        for k, item in enumerate(items):
             cap = item[2] if len(item) > 2 else None
-            ex, sites[k] = env.api_case(mol, max_n, 'cons_%d' % k, out, cap)
-            assoc[k] = env.assoc
-            if ex:
-                raised[k] = ex
+            hist_k = item[3] if len(item) > 3 else None
+            results[k] = env.api_case(item[0], item[1], 'cons_%d' % k, out, cap, hist_k)
     got = {}
     with pysam.AlignmentFile(path, check_sq=False) as f:
         for r in f:
             got.setdefault(r.query_name, []).append(project_record(r))
     os.remove(path)
-    for k, item in enumerate(mols_maxn):
+    tid = tid0
+    for k, item in enumerate(items):
         mol, max_n = item[0], item[1]
-        e = base_event(env.ref, mol, 'api', max_n, sites[k], assoc[k], item[2] if len(item) > 2 else None)
-        e['tid'] = tid0 + k
-        if k in raised:
-            e['raised'] = raised[k]
-        else:
-            e['records'] = got.get('cons_%d' % k, [])
-        emit(e)
-    return tid0 + len(mols_maxn)
+        cap = item[2] if len(item) > 2 else None
+        hist_k = item[3] if len(item) > 3 else None
+        for label, raised, site, assoc, n_added in results[k]:
+            pre = label.endswith('_pre')
+            sub = dict(mol, frags=mol['frags'][:n_added]) if pre else mol
+            e = base_event(env.ref, sub, 'api' if hist_k is None or pre else 'api_hist', max_n, site, assoc, cap)
+            if hist_k is not None and not pre:
+                e['hist_k'] = hist_k
+            e['tid'] = tid
+            tid += 1
+            if raised:
+                e['raised'] = raised
+            else:
+                e['records'] = got.get(label, [])
+            emit(e)
+    return tid
 
 
 def run_cli(env, emit, mols, no_source, with_ref, tid0, tag, cap=None):
@@ -307,8 +321,8 @@ def main():
                 mol = {'chrom': e['chrom'], 'frags': e['desc']['frags'], 'strand': e['strand'], 'sample': e['mol']['SM'],
                        'umi': e['mol']['RX'], 'bc': e['desc']['bc']}
                 cap = e.get('cap') or None
-                if e['via'] == 'api':
-                    run_api(env, emit, [(mol, None if e['maxN'] < 0 else e['maxN'], cap)], 1, 'replay')
+                if e['via'] in ('api', 'api_hist'):
+                    run_api(env, emit, [(mol, None if e['maxN'] < 0 else e['maxN'], cap, e.get('hist_k'))], 1, 'replay')
                 else:
                     run_cli(env, emit, [mol], e['via'] == 'cli_nosrc', e.get('with_ref', True), 1, 'replay', cap)
                 return
@@ -320,7 +334,9 @@ def main():
                 n = len(mol['frags'])
                 # every fifth molecule of >= 2 fragments exceeds a configured max_associated_fragments
                 cap = rng.randint(1, n - 1) if n >= 2 and rng.random() < 0.35 else None
-                batch.append((mol, rng.choice([None, None, 0, 1, 3, 10, 300]), cap))
+                # history consensus -> add -> consensus on one object (uncapped molecules of >= 2 fragments)
+                hist_k = rng.randint(1, n - 1) if cap is None and n >= 2 and rng.random() < 0.5 else None
+                batch.append((mol, rng.choice([None, None, 0, 1, 3, 10, 300]), cap, hist_k))
             tid = run_api(env, emit, batch, tid, 'a')
             n_cli = 4 if tier == 'quick' else 60
             for k in range(n_cli):
